@@ -6,6 +6,7 @@ import os, re, json
 from vlib import *
 from extract import *
 from _help_c19c22 import *
+import _help_c22b as B
 import c19 as C19
 
 PID = "C22"
@@ -62,6 +63,10 @@ def build_event_unit(ctx):
     parts.append(cut_inline(ctx, INTEGREP_H, r"static Real estimateRootTime\(Real tLow, Real fLow, Real tHigh, Real fHigh,\s*Real bias, Real minWindow\)\s*",
                             "IntegratorRep::estimateRootTime", "Real estimateRootTime(Real tLow, Real fLow, Real tHigh, Real fHigh, Real bias, Real minWindow)", extra=x_root))
     parts.append('#include "%s/event_harness.h"\n' % SPEC)
+    # --- findEventCandidates over contracted sequence stubs (loop contract + ghost positions) ---
+    parts.append('#include "%s/fec_contracts.h"\n' % SPEC)
+    parts.append(B.fec_text(ctx))
+    parts.append('#include "%s/fec_harness.h"\n' % SPEC)
     path = os.path.join(ctx.out, "event_unit.c")
     open(path, "w").write("\n".join(parts))
     return path
@@ -164,6 +169,15 @@ def main(ctx):
       function="AbstractIntegratorRep::takeOneStep (event detection + localisation part)", timeout=600)
     J(cbmc_unit, "localize.setTriggeredEvents", [loc], "h_setTriggered", enforce="setTriggeredEvents", cbmc_args=CHK,
       require_props=[r"postcondition"], function="IntegratorRep::setTriggeredEvents (window bookkeeping)", timeout=300)
+    # --- findEventCandidates: the real loop over contracted sequence stubs ---
+    FECCHK = CHK + ["--no-malloc-may-fail"] if False else CHK
+    for nm, h, what in (("fec.all", "h_fec_all", "no viable list: all triggers examined"), ("fec.narrow", "h_fec_narrow", "viable list narrowed")):
+        J(cbmc_unit, nm, [ev], h, no_dfcc=True, cc_args=["-DFEC_PLAIN"], cbmc_args=CHK, min_obligations=40, require_props=[r"findEventCandidates__ind\.assertion", r"fec_induction\.assertion"],
+          function="IntegratorRep::findEventCandidates (%s)" % what, timeout=300)
+    J(cbmc_unit, "fec.bounded4", [ev], "h_fec_bounded", no_dfcc=True, cc_args=["-DFEC_PLAIN"], cbmc_args=CHK + ["--unwind", "5", "--unwinding-assertions"], min_obligations=8,
+      bounded="at most 4 event triggers / 4 viable candidates (concrete arrays, loops unwound with unwinding assertions)",
+      function="IntegratorRep::findEventCandidates (bounded refutation companion)", timeout=600)
+    J(cover_unit, "fec.cover", [ev], "h_fec_cover", expect_min=4, function="findEventCandidates contract preconditions")
     J(cbmc_unit, "event.split_lemma", [ev], "h_split_lemma", no_dfcc=True, min_obligations=1, function="sign/classify/mask split lemma", timeout=300)
     parallel(jobs)
     ctx.trust("cbmc/goto-cc/goto-instrument 6.11.0 (C front end, dfcc contracts, loop contracts), MiniSat")
